@@ -15,6 +15,7 @@ VERIF = os.path.dirname(os.path.dirname(os.path.abspath(__file__)))
 # that receives the work files, evidence and replays of that run.
 REPO = os.environ.get("VERIF_REPO", "/repo")
 OUT_BASE = os.environ.get("VERIF_SCRATCH", VERIF)
+TARGET_BASE = os.environ.get("VERIF_TARGET")      # optional: a build directory shared by successive scratch runs
 TLA_DIR = os.path.join(VERIF, "tla")
 HARNESS = os.path.join(VERIF, "harness")
 JAR = "/opt/veriftools/tla/tla2tools.jar:/opt/veriftools/tla/CommunityModules-deps.jar"
@@ -57,7 +58,7 @@ def build_harness(variants):
         env = dict(os.environ)
         env["RUSTFLAGS"] = flags
         env["CARGO_NET_OFFLINE"] = "true"
-        tdir = os.path.join(HARNESS, "target", v) if REPO == "/repo" else os.path.join(OUT_BASE, "target", v)
+        tdir = os.path.join(TARGET_BASE, v) if TARGET_BASE else os.path.join(HARNESS, "target", v) if REPO == "/repo" else os.path.join(OUT_BASE, "target", v)
         cmd = ["cargo", "build", "--offline", "--quiet", "--target-dir", tdir]
         if REPO != "/repo":
             cmd += ["--config", 'paths=["%s"]' % REPO]
@@ -70,7 +71,7 @@ def build_harness(variants):
         if p.returncode != 0:
             raise ToolError("harness build failed for %s:\n%s" % (v, text[-4000:]))
         release, _ = VARIANTS[v]
-        tdir = os.path.join(HARNESS, "target", v) if REPO == "/repo" else os.path.join(OUT_BASE, "target", v)
+        tdir = os.path.join(TARGET_BASE, v) if TARGET_BASE else os.path.join(HARNESS, "target", v) if REPO == "/repo" else os.path.join(OUT_BASE, "target", v)
         out[v] = os.path.join(tdir, "release" if release else "debug", "sds-verif-harness")
     return out
 
